@@ -118,7 +118,7 @@ def run(ctx):
             exercise(ctx, st, s, h, w, supplied=bool(k % 2))
     # frames used by the loop constraints themselves (monitor stays on while the real functions run)
     if ctx.shard == 0:
-        for h, w in [(1, 1), (2, 3), (3, 2), (0, 2)]:
+        for h, w in [(1, 1), (2, 3), (3, 2), (0, 2), (0, 0), (0, 1), (1, 0)]:
             s2 = cspuz.Solver()
             fr = BoolGridFrame(s2, h, w)
             try:
